@@ -161,7 +161,7 @@ func (x *c13Net) close() {
 	x.clients = nil
 	x.mu.Unlock()
 	_ = cl
-	x.netSrv.Shutdown()
+	// the servers are shut down by the test's cleanup: members cancelled a moment ago may still be inside an RPC call
 }
 
 // logger returns a logger recording the deploy package's messages, tagged with the member index.
@@ -684,6 +684,11 @@ func c13Bootstrap(c *c13) (string, string) {
 			cat([]c13Step{tick(0), blk(), tick(0), blk(), tick(1), blk(), tick(1), blk(), {Op: "blocks", Count: 121}}, rounds(all(2), 7))},
 		{"n=3 shared data expire before the leader collects: re-published, signers re-sign", 3, all(3), true,
 			cat([]c13Step{tick(0), blk(), tick(0), blk(), tick(1), tick(2), blk(), tick(1), tick(2), blk(), {Op: "blocks", Count: 121}}, rounds(all(3), 7))},
+		// the leader holds member 1's signature of S1 when S1 expire; member 2 signs S2 before member 1 re-signs:
+		// nothing collected for S1 may survive into the witness for S2
+		{"n=4 partial collection, shared data expire, a late member signs the new data before the early signer re-signs", 4, []int{0, 1, 2}, false,
+			[]c13Step{tick(0), blk(), tick(0), blk(), tick(1), blk(), tick(1), blk(), tick(0), blk(), {Op: "blocks", Count: 121},
+				tick(0), blk(), tick(2), blk(), tick(2), blk(), tick(0), blk(), tick(1), blk(), tick(0), blk(), tick(0), blk()}},
 		{"n=3 leader restarts after publishing, signer 1 restarts after registering", 3, all(3), false,
 			cat(rounds(all(3), 2), []c13Step{{Op: "restart", K: 0}}, rounds(all(3), 1), []c13Step{{Op: "restart", K: 1}}, rounds(all(3), 5))},
 		{"n=3 leader's addRecord and signer's register are kept out of two blocks", 3, []int{0, 1}, false,
